@@ -155,7 +155,7 @@ func (g *Gen) accelPattern() *Tree {
 	}
 	set := func() *Tree { return Class(false, [2]int{'a', 'b'}) }
 	body := func() *Tree { g.bud = 4; return g.seq(2, 2) }
-	switch g.pick(14) {
+	switch g.pick(16) {
 	case 12, 13: // an iterated body: letter, loop, nullable loop - what follows a loop is the body's own start on the next iteration
 		ab := func() *Tree {
 			if g.chance(0.3) {
@@ -174,6 +174,40 @@ func (g *Gen) accelPattern() *Tree {
 			loop = Rep(inner, 2, 2, false)
 		}
 		return T("cat", loop, Lit([]int{'a', 'b', 'c'}[g.pick(3)]))
+	case 14, 15: // alternation whose branches put sets of different kinds (mergeable or not) at the same fixed offsets
+		item := func() *Tree {
+			switch g.pick(7) {
+			case 0:
+				return Class(true, [2]int{'a', 'a'}, [2]int{'b', 'b'}) // negated, two members: not a Notone
+			case 1:
+				return Class(true, [2]int{'a', 'a'})
+			case 2:
+				return Class(false, [2]int{'a', 'b'})
+			case 3:
+				return Sh([]string{"d", "w", "s", "W"}[g.pick(4)])
+			case 4:
+				return T("dot")
+			default:
+				return Lit([]int{'a', 'b', 'c'}[g.pick(3)])
+			}
+		}
+		var branches []*Tree
+		for i := 2 + g.pick(2); i > 0; i-- {
+			ks := []*Tree{item()}
+			for j := g.pick(3); j > 0; j-- {
+				ks = append(ks, item())
+			}
+			if len(ks) == 1 {
+				branches = append(branches, ks[0])
+			} else {
+				branches = append(branches, T("cat", ks...))
+			}
+		}
+		kids := []*Tree{T("alt", branches...), lit(1 + g.pick(2))}
+		if g.chance(0.3) {
+			kids = append([]*Tree{lit(1)}, kids...)
+		}
+		return T("cat", kids...)
 	case 0: // leading string
 		return T("cat", lit(2+g.pick(3)), body())
 	case 1: // leading strings (alternation of literals)
